@@ -471,3 +471,30 @@ def check(P: Project, R: Report) -> None:
     for label, ok, lineno, detail in fallback_extra_obligations(P, P.module(A.MOD_BASE), bfv_, fb, {"extra": pyd_extra}):
         R.ob("R12", label, ok, f"{base_rel}:{lineno}", detail)
 
+
+    # ------------------------------------------------------------------ R13: annotations are resolved when an object is validated
+    R.rule("R13", "nested members get their model type under the fallback as under Pydantic: the annotations the fallback validates against are resolved (typing.get_type_hints) in the call tree of the constructor — at class creation a string annotation naming a class defined further down the module cannot be resolved, so a member typed by such a forward reference would stay a raw dict (no nested validation, different re-serialisation)")
+    fwd = []
+    for q, m in sorted(T.models.items()):
+        if not m.ci.module.name.startswith("chuk_mcp.protocol."):
+            continue
+        later = {c.name for c in ast.walk(m.ci.module.tree) if isinstance(c, ast.ClassDef) and c.lineno > m.ci.node.lineno}
+        for s_ in m.ci.node.body:
+            if isinstance(s_, ast.AnnAssign) and isinstance(s_.target, ast.Name):
+                for c_ in ast.walk(s_.annotation):
+                    if isinstance(c_, ast.Constant) and isinstance(c_.value, str) and any(nm in later for nm in re.findall(r"[A-Za-z_][A-Za-z0-9_]*", c_.value)):
+                        fwd.append(f"{m.name}.{s_.target.id}")
+    init_ = fb_methods.get("__init__")
+    R.need(init_ is not None, "anchor: fallback constructor not found")
+    reach = {"__init__": init_}
+    work_ = [init_]
+    while work_:
+        g_ = work_.pop()
+        for c_ in walk_local(g_):
+            if isinstance(c_, ast.Call) and call_name(c_).startswith("self.") and call_name(c_)[5:] in fb_methods and call_name(c_)[5:] not in reach:
+                reach[call_name(c_)[5:]] = fb_methods[call_name(c_)[5:]]
+                work_.append(fb_methods[call_name(c_)[5:]])
+    resolvers = [(nm, c_) for nm, g_ in reach.items() for c_ in walk_local(g_) if isinstance(c_, ast.Call) and call_name(c_).split(".")[-1] == "get_type_hints"]
+    R.ob("R13", "the fallback resolves annotations when it validates an object", bool(resolvers) or not fwd, f"{base_rel}:{init_.lineno}",
+         f"no get_type_hints call is reached from the fallback constructor (methods read: {sorted(reach)}); {len(fwd)} protocol model member(s) are annotated with a forward reference ({', '.join(fwd[:4])}) and can only be resolved after their module has been imported",
+         sample=f"R13 get_type_hints reached from the constructor via {sorted({nm for nm, _c in resolvers})}; forward-referenced members: {fwd[:3]}")
